@@ -41,3 +41,64 @@ package channel
 //@   modifies wire
 //@   ensures #input-then-return result == nil ==> wire == old(wire) ++ b ++ c.ReturnChar
 //@   ensures #partial-only-on-error result != nil ==> wire == old(wire) || wire == old(wire) ++ b
+
+// ---- C01: the search window, and reads return exactly what was taken from the queue ---------------------------------
+
+//@ func getProcessReadBufSearchDepth [C01]
+//@   pure
+//@   check overflow
+//@   requires 0 <= inputLen && inputLen <= 4611686018427387903
+//@   ensures #max result == (2 * inputLen > promptSearchDepth ? 2 * inputLen : promptSearchDepth)
+
+// window(rb, depth): the part of the accumulated buffer that patterns are matched against
+//@ spec tailOf(rb []byte, depth int) []byte := rb[len(rb)-depth:len(rb)]
+//@ spec window(rb []byte, depth int) []byte := len(rb) <= depth ? rb : (indexOf(tailOf(rb, depth), "\n") > 0 ? tailOf(rb, depth)[indexOf(tailOf(rb, depth), "\n"):depth] : tailOf(rb, depth))
+
+//@ func processReadBuf [C01]
+//@   pure
+//@   requires searchDepth >= 0
+//@   ensures #short-buffer-whole len(rb) <= searchDepth ==> result == rb
+//@   ensures #window result == window(rb, searchDepth)
+//@   ensures #suffix-of-last-depth-bytes len(rb) > searchDepth ==> (exists s int :: len(rb) - searchDepth <= s && s <= len(rb) && result === rb[s:len(rb)])
+//@   ensures #line-aligned len(rb) > searchDepth && indexOf(tailOf(rb, searchDepth), "\n") > 0 ==> result[0] == '\n'
+
+// rd: ghost history of the bytes Channel.Read handed out, in order
+//@ ghost rd []byte
+//@ chaninv Channel.Errs v => v != nil
+
+//@ func (*Channel).Read [C01 C06]
+//@   requires RI(c.Q)
+//@   modifies rd, c.Q.queue, c.Q.depth
+//@   at return set rd = (result.1 == nil ? old(rd) ++ result.0 : old(rd))
+//@   ensures #ri RI(c.Q)
+//@   ensures #nil-on-error result.1 != nil ==> len(result.0) == 0 && rd == old(rd) && c.Q.queue == old(c.Q.queue)
+//@   ensures #hands-out-queue-head result.1 == nil ==> rd == old(rd) ++ result.0 && (len(old(c.Q.queue)) == 0 ? (len(result.0) == 0 && c.Q.queue == old(c.Q.queue)) : (result.0 == old(c.Q.queue)[0] && c.Q.queue == old(c.Q.queue)[1:len(old(c.Q.queue))]))
+//@   ensures #exited-means-error c.readLoopExited ==> result.1 != nil
+
+//@ func (*Channel).ReadUntilPrompt [C01 C05 C06]
+//@   requires RI(c.Q) && c.PromptSearchDepth >= 0
+//@   modifies rd, c.Q.queue, c.Q.depth
+//@   ensures #ri RI(c.Q)
+//@   ensures #nil-on-error result.1 != nil ==> len(result.0) == 0
+//@   ensures #returns-exactly-what-it-consumed result.1 == nil ==> rd == old(rd) ++ result.0
+//@   ensures #success-means-prompt-seen result.1 == nil ==> reMatch(c.PromptPattern, window(result.0, c.PromptSearchDepth))
+//@   loop 1 invariant RI(c.Q) && rd == old(rd) ++ rb
+
+//@ func (*Channel).ReadUntilAnyPrompt [C01 C05 C06]
+//@   requires RI(c.Q) && c.PromptSearchDepth >= 0
+//@   modifies rd, c.Q.queue, c.Q.depth
+//@   ensures #ri RI(c.Q)
+//@   ensures #nil-on-error result.1 != nil ==> len(result.0) == 0
+//@   ensures #returns-exactly-what-it-consumed result.1 == nil ==> rd == old(rd) ++ result.0
+//@   ensures #success-means-a-prompt-seen result.1 == nil ==> (exists k int :: 0 <= k && k < len(prompts) && reMatch(prompts[k], window(result.0, c.PromptSearchDepth)))
+//@   loop 1 invariant RI(c.Q) && rd == old(rd) ++ rb
+//@   loop 2 invariant rangeindex < len(prompts) && RI(c.Q) && rd == old(rd) ++ rb && prb == window(rb, c.PromptSearchDepth)
+
+//@ func (*Channel).ReadUntilExplicit [C01 C05 C06]
+//@   requires RI(c.Q) && c.PromptSearchDepth >= 0
+//@   modifies rd, c.Q.queue, c.Q.depth
+//@   ensures #ri RI(c.Q)
+//@   ensures #nil-on-error result.1 != nil ==> len(result.0) == 0
+//@   ensures #returns-exactly-what-it-consumed result.1 == nil ==> rd == old(rd) ++ result.0
+//@   ensures #success-means-echo-seen result.1 == nil ==> contains(window(result.0, (2 * len(b) > c.PromptSearchDepth ? 2 * len(b) : c.PromptSearchDepth)), b)
+//@   loop 1 invariant RI(c.Q) && rd == old(rd) ++ rb
